@@ -328,12 +328,35 @@ def structured_invalid(n, rnd, count):
     return cases
 
 
+def corruptions(n, rnd, per_class, members=1):
+    """one-letter corruptions of valid stabilizers: every class, seeded members, seeded (generator, qubit, letter) edits"""
+    cases = []
+    orbit_of, reps = G.orbit_table(n)
+    for gid in reps:
+        rows0 = [(x, z) for x, z, _ in G.graph_state_gens(n, G.adj_from_id(n, gid))]
+        for mem in range(members):
+            rows = rows0 if mem == 0 else e2e.generator_changes(n, G.apply_layer_unsigned(n, rows0, [rnd.randrange(6) for _ in range(n)]), rnd, 1)[0]
+            for _ in range(per_class):
+                j, q = rnd.randrange(n), rnd.randrange(n)
+                x, z = rows[j]
+                cur = ((x >> q) & 1, (z >> q) & 1)
+                new = rnd.choice([p for p in ((0, 0), (1, 0), (0, 1), (1, 1)) if p != cur])
+                x2 = (x & ~(1 << q)) | (new[0] << q)
+                z2 = (z & ~(1 << q)) | (new[1] << q)
+                mod = list(rows)
+                mod[j] = (x2, z2)
+                cases.append([(a, b, rnd.randrange(2)) for a, b in mod])
+    return cases
+
+
 def run(ctx: core.Ctx):
     from htstabilizer.stabilizer import Stabilizer
     import htstabilizer.stabilizer_circuits as sc
     ctx.under_contract(Stabilizer.validate)
     ctx.under_contract(sc._get_preparation_circuit_modulo_phase)
     ctx.selfcheck["oracle_gate_rules_checked_densely"] = P.selftest()
+    from .. import prereq
+    prereq.pipeline_contracts(ctx)       # soundness for ANY operators rests on the layer-search contracts and on the glue calling exactly that search
     symrun.run(ctx, [C.case_validate(n) for n in range(1, 7)], label="sym")
     for f in [k for k in ctx.families if ".validate." in k]:
         ctx.families[f].name = f
@@ -356,6 +379,11 @@ def run(ctx: core.Ctx):
     for n, conn in docs.ADVERTISED:
         if n >= 3:
             jobs.append((n, conn, structured_invalid(n, rnd, (40 if n < 6 else 20) if ctx.quick else 300)))
+    for n, conn in docs.ADVERTISED:
+        if n in (4, 5) or (n == 6 and not ctx.quick):
+            cs_ = corruptions(n, rnd, (6 if n == 5 else 10) if ctx.quick else 30, members=2 if n <= 5 else 1)
+            for ch in core.chunked(cs_, 4):
+                jobs.append((n, conn, ch))
     res2 = core.pmap(invalid_job, jobs, chunks=1)
     for r in res:
         for famname, ok, key, what, rp in r:
